@@ -651,7 +651,7 @@ FIELDS = ["Name", "Artist", "Charter", "Album", "Year", "Offset", "Resolution", 
           "VocalStream", "KeysStream", "CrowdStream"]
 
 
-def gen_line(rnd, flavour=None, tick=None):
+def gen_line(rnd, flavour=None, tick=None, fields=None):
     t = tick if tick is not None else rnd.choice(TICKS)
     f = flavour or rnd.choice(["instrument", "sync", "events", "song", "junk"])
     num = lambda: rnd.choice(["0", "1", "2", "4", "10", "96", "192", "0096", "1118", "120000", "60000", "99999999"])
@@ -671,7 +671,7 @@ def gen_line(rnd, flavour=None, tick=None):
         x = rnd.choice(TEXTS)
         body = 'E "' + (("lyric " + x) if k < 0.35 else (("section " + x) if k < 0.65 else (x if k < 0.9 else rnd.choice(["lyric" + x, "section" + x, "Lyric " + x])))) + '"'
     elif f == "song":
-        fld = rnd.choice(FIELDS)
+        fld = rnd.choice(fields or FIELDS)
         v = rnd.choice(TEXTS + ["0", "192", "480", "bass", "rhythm", "guitar", "rock"])
         q = rnd.random()
         line = f"{fld} = " + (f'"{v}"' if q < 0.6 else v)
@@ -689,8 +689,10 @@ def gen_lines(rnd):
     pool = sorted(rnd.sample([0, 5, 7, 96, 192, 768, 1536], 3))
     ticks = sorted(rnd.choice(pool) for _ in range(n)) if rnd.random() < 0.75 else [rnd.choice(pool) for _ in range(n)]
     out = []
+    # a [Song] body over a few fields only, so that a field is written more than once (first line wins)
+    few = rnd.sample(FIELDS, rnd.choice([2, 3, 4])) + ["Resolution"] if f == "song" and rnd.random() < 0.7 else None
     for tk in ticks:
-        out.append(rnd.choice(LINES) if rnd.random() < 0.1 else gen_line(rnd, f if rnd.random() < 0.9 else None, str(tk)))
+        out.append(rnd.choice(LINES) if rnd.random() < 0.1 else gen_line(rnd, f if rnd.random() < 0.9 else None, str(tk), few))
     return out
 
 
@@ -767,11 +769,24 @@ def gen_chart(rnd):
     return cc.Chart.from_file(io.StringIO(rnd.choice(CHART_TEXTS)))
 
 
+def gen_raw_bpm(rnd, zero=True):
+    """the <n> of a tempo line: the fixed pool plus values of every magnitude the statement allows (C08: 'every
+    positive integer n', any digit count) - seeded C08e rejects about 2 % of the n >= 16384005"""
+    k = rnd.random()
+    if k < 0.35:
+        return rnd.choice([120000, 60000, 128003, 147253, 1118, 1, 999999999, 200000, 90000, 1001] + ([0] if zero else []))
+    if k < 0.5:
+        return rnd.randrange(1, 3000)
+    if k < 0.7:
+        return rnd.randrange(16380000, 16800000)
+    d = rnd.randrange(4, 12)
+    return rnd.randrange(10 ** (d - 1), 10 ** d)
+
+
 def gen_bpm_data(rnd):
     import chartparse.chart  # noqa
     from chartparse.sync import BPMEvent
-    return BPMEvent.ParsedData(tick=rnd.choice([0, 1, 2, 3, 96, 192, 193, 500, 1000]),
-                               raw_bpm=str(rnd.choice([120000, 60000, 128003, 147253, 1118, 1, 999999999, 200000, 90000, 0, 1001])))
+    return BPMEvent.ParsedData(tick=rnd.choice([0, 1, 2, 3, 96, 192, 193, 500, 1000]), raw_bpm=str(gen_raw_bpm(rnd)))
 
 
 def gen_bpm_event(rnd):
@@ -779,7 +794,8 @@ def gen_bpm_event(rnd):
     from chartparse.sync import BPMEvent
     o = object.__new__(BPMEvent)
     for k, v in dict(tick=rnd.choice([0, 1, 2, 3, 96, 192]), timestamp=datetime.timedelta(microseconds=rnd.choice([0, 1, 500000, 1000001])),
-                     _proximal_bpm_event_index=rnd.choice([0, 1, 2]), bpm=rnd.choice([120.0, 60.0, 999999.999, 128.003, 0.001, 1.118, 0.0])).items():
+                     _proximal_bpm_event_index=rnd.choice([0, 1, 2]),
+                     bpm=(gen_raw_bpm(rnd) / 1000 if rnd.random() < 0.6 else rnd.choice([120.0, 60.0, 999999.999, 128.003, 0.001, 1.118, 0.0]))).items():
         object.__setattr__(o, k, v)
     return o
 
